@@ -59,9 +59,31 @@ fftw_plan fftw_plan_guru64_dft(int rank, const fftw_iodim64* dims, int howmany_r
 		c15_state.sign     = sign;
 		c15_state.flags    = flags;
 		c15_state.plan     = ret;
+		for(int k = 0; k != 2; ++k) {
+			if(c15_state.watch_ptr[k] != nullptr && std::memcmp(c15_state.watch_ptr[k], c15_state.watch_snap[k], c15_state.watch_bytes[k]) != 0) {
+				c15_state.plan_touched |= (1U << k);
+			}
+		}
 	}
 	return ret;
 }
+
+// the other planner / execute entry points of FFTW's complex-DFT interface: the adaptor has no business calling
+// them; a call is recorded ('o' in the X line) and forwarded
+#define C15_OTHER(ret_t, name, params, args)                                   \
+	ret_t name params {                                                         \
+		using fn_t = ret_t(*) params;                                           \
+		static fn_t real = reinterpret_cast<fn_t>(c15_real(#name));             \
+		if(c15_state.enabled != 0) { ++c15_state.nother; c15_note('o'); }       \
+		return real args;                                                       \
+	}
+C15_OTHER(void, fftw_execute, (const fftw_plan p), (p))
+C15_OTHER(fftw_plan, fftw_plan_dft, (int rank, const int* n, fftw_complex* in, fftw_complex* out, int sign, unsigned flags), (rank, n, in, out, sign, flags))
+C15_OTHER(fftw_plan, fftw_plan_dft_1d, (int n, fftw_complex* in, fftw_complex* out, int sign, unsigned flags), (n, in, out, sign, flags))
+C15_OTHER(fftw_plan, fftw_plan_dft_2d, (int n0, int n1, fftw_complex* in, fftw_complex* out, int sign, unsigned flags), (n0, n1, in, out, sign, flags))
+C15_OTHER(fftw_plan, fftw_plan_dft_3d, (int n0, int n1, int n2, fftw_complex* in, fftw_complex* out, int sign, unsigned flags), (n0, n1, n2, in, out, sign, flags))
+C15_OTHER(fftw_plan, fftw_plan_many_dft, (int rank, const int* n, int howmany, fftw_complex* in, const int* inembed, int istride, int idist, fftw_complex* out, const int* onembed, int ostride, int odist, int sign, unsigned flags), (rank, n, howmany, in, inembed, istride, idist, out, onembed, ostride, odist, sign, flags))
+C15_OTHER(fftw_plan, fftw_plan_guru_dft, (int rank, const fftw_iodim* dims, int howmany_rank, const fftw_iodim* howmany_dims, fftw_complex* in, fftw_complex* out, int sign, unsigned flags), (rank, dims, howmany_rank, howmany_dims, in, out, sign, flags))
 
 void fftw_execute_dft(const fftw_plan p, fftw_complex* in, fftw_complex* out) {
 	using fn_t = void (*)(const fftw_plan, fftw_complex*, fftw_complex*);
